@@ -1721,7 +1721,50 @@ def _quant(it, e, env, universal):
             cenv.set(names[0], SStr(k))
         else:
             typed = isinstance(coll, VSeqIter) or (isinstance(coll, VList) and coll.symbolic)
-            seq = coll.seq if typed else it.seq_term(coll)
+            seq = pv.ssimp(coll.seq if typed else it.seq_term(coll))
+            # a quantifier over  xs ++ [y]  is decomposed structurally: over xs, and the body at y
+            parts = []
+
+            def flat(sq):
+                if z3.is_app(sq) and sq.decl().kind() == z3.Z3_OP_SEQ_CONCAT:
+                    for c in sq.children():
+                        flat(c)
+                else:
+                    parts.append(sq)
+            flat(seq)
+            if len(parts) > 1 or (parts and z3.is_app(parts[0]) and parts[0].decl().kind() in
+                                  (z3.Z3_OP_SEQ_UNIT, z3.Z3_OP_SEQ_EMPTY)):
+                terms = []
+                offset = z3.IntVal(0)
+                for part in parts:
+                    kd = part.decl().kind() if z3.is_app(part) else None
+                    if kd == z3.Z3_OP_SEQ_EMPTY:
+                        continue
+                    penv = Env(parent=env)
+                    if kd == z3.Z3_OP_SEQ_UNIT:
+                        ev = pv.elem_value(coll, part.arg(0)) if typed else lower(part.arg(0))
+                        if len(names) == 2:
+                            penv.set(names[0], SInt(z3.simplify(offset)))
+                            penv.set(names[1], ev)
+                        else:
+                            penv.set(names[0], ev)
+                        terms.append(pv.as_term_bool(truthy(it.eval(lam.body, penv))))
+                        offset = offset + 1
+                    else:
+                        i = ctx.fresh(z3.IntSort(), 'qi')
+                        ev = pv.elem_value(coll, part[i]) if typed else SAny(part[i])
+                        if len(names) == 2:
+                            penv.set(names[0], SInt(z3.simplify(offset + i)))
+                            penv.set(names[1], ev)
+                        else:
+                            penv.set(names[0], ev)
+                        b = pv.as_term_bool(truthy(it.eval(lam.body, penv)))
+                        rng = z3.And(i >= 0, i < z3.Length(part))
+                        terms.append(z3.ForAll([i], z3.Implies(rng, b)) if universal else z3.Exists([i], z3.And(rng, b)))
+                        offset = offset + z3.Length(part)
+                if not terms:
+                    return universal
+                return mkbool(z3.And(*terms) if universal else z3.Or(*terms))
             i = ctx.fresh(z3.IntSort(), 'qi')
             consts.append(i)
             guard.append(z3.And(i >= 0, i < z3.Length(seq)))
@@ -1806,7 +1849,13 @@ def sp_is_none(it, args, kwargs):
 
 
 def sp_is_str(it, args, kwargs):
-    return isinstance_one(it, args[0], TYPE_MARKERS['str'])
+    """a proper str (instances of str subclasses excluded)"""
+    v = args[0]
+    if isinstance(v, (str, SStr)):
+        return True
+    if isinstance(v, SAny):
+        return mkbool(PV.is_PStr(v.t))
+    return False
 
 
 def sp_is_int(it, args, kwargs):
